@@ -148,7 +148,7 @@ class Emit:
                 toks.append(",")
             if self.r.chance(1, 3):
                 toks.append(self.r.choice(["const", "var", "inout"]))
-            nm = self.name("p")
+            nm = self.name("p") if not self.r.chance(1, 10) else self.r.choice(["top", "order", "into", "from", "by", "where"])
             toks.append(nm)
             if self.r.chance(3, 4):
                 t, n = self.type_(max(d - 1, 0))
@@ -409,6 +409,9 @@ class Emit:
     def method(self, d):
         is_func = self.r.chance(1, 2)
         nm = self.name("M")
+        if self.r.chance(1, 8):
+            # a method named like one of the keywords the grammar accepts as identifiers
+            nm = self.r.choice(["Top", "Fetch", "Order", "Into", "Select", "Where", "From", "By", "Using", "Distinct", "Descending"])
         toks = ["func" if is_func else "proc", nm]
         name_node = N("terminal", nm)
         ident = nm
